@@ -546,8 +546,12 @@ func runDocs(c *hx.Ctx, idx int) {
 }
 
 func Run(c *hx.Ctx) {
-	c.Rep.Rule = "parser sessions (1-4 operator programs, earlier ones ending mid-operand, plus failing raw inputs) compared with the parse alone; font dictionaries (1-5 names incl. aliasing pairs F and /F) registered 24 times each; 2-6 documents of the seven formats extracted alone, repeatedly, after other and failing extractions, and on 4-16 goroutines at once under the race detector, comparing digests of Text/ToMarkdown/Chunks().ToJSONL()/ToCSV(); 2-5 page PDFs whose pages share one resources dictionary (inherited from a /Pages node or one indirect object) and draw through Form XObjects whose own resources rebind the shared XObject/font names, each page extracted alone on a fresh reader, after 4-9 other page extractions on one caller-owned reader, and inside Open(f).Text(); trees of up to 16 Extractors derived from one base (file name or caller-owned reader) by Pages/PageRange/layout switches, families of siblings derived before any runs, run in arbitrary order, repeatedly and from 3-6 goroutines, each compared with a fresh linear chain of the same calls run alone; non-trivial = session with at least one operation / every font and document case"
+	c.Rep.Rule = "parser sessions (1-4 operator programs, earlier ones ending mid-operand, plus failing raw inputs) compared with the parse alone; font dictionaries (1-5 names incl. aliasing pairs F and /F) registered 24 times each; 2-6 documents of the seven formats extracted alone, repeatedly, after other and failing extractions, and on 4-16 goroutines at once under the race detector, comparing digests of Text/ToMarkdown/Chunks().ToJSONL()/ToCSV(); 2-5 page PDFs whose pages share one resources dictionary (inherited from a /Pages node or one indirect object) and draw through Form XObjects whose own resources rebind the shared XObject/font names, each page extracted alone on a fresh reader, after 4-9 other page extractions on one caller-owned reader, and inside Open(f).Text(); trees of up to 16 Extractors derived from one base (file name or caller-owned reader) by Pages/PageRange/layout switches, families of siblings derived before any runs, run in arbitrary order, repeatedly and from 3-6 goroutines, each compared with a fresh linear chain of the same calls run alone; 3-8 goroutines each extracting 1-3 documents of their own that the process has not seen before (web pages and EPUB chapters with free-form class/id/role attributes, the seven formats, dense PDF pages) through tabula.Open and the htmldoc/epubdoc readers in every navigation-exclusion mode, the first such case being the first thing the process does, compared with the same documents alone afterwards and with the race detector's log; PDF pages on the thresholds of the line-grouping heuristics (scaling CTMs 1..0.1, baseline pitch 15%-150% of the glyph height, up to 42 distinct baselines, 1-3 columns with coinciding or interleaved baselines drawn column by column, bottom-up, row by row or shuffled, Tm/Td/BT-per-line positioning) with 15 public renderings taken 8 times each; non-trivial = session with at least one operation / every font and document case"
+	runFresh(c, 0, true) // cold start: the very first extractions of the process run concurrently (no PDF: see next line)
 	runMetricsHistory(c) // first: nothing may have touched the font tables yet
+	for i := 1; i < c.N(12, 200); i++ {
+		runFresh(c, i, false)
+	}
 	for i := 0; i < c.N(1500, 40000); i++ {
 		runSession(c, i)
 	}
@@ -569,6 +573,9 @@ func Run(c *hx.Ctx) {
 	for i := 0; i < c.N(60, 1200); i++ {
 		runDerive(c, i)
 	}
+	for i := 0; i < c.N(24, 400); i++ {
+		runDense(c, i)
+	}
 }
 
 func Replay(c *hx.Ctx, m map[string]interface{}) {
@@ -579,6 +586,14 @@ func Replay(c *hx.Ctx, m map[string]interface{}) {
 			runForms(c, int(idx))
 		case "derive":
 			runDerive(c, int(idx))
+		case "dense":
+			runDense(c, int(idx))
+		case "fresh":
+			cold, _ := m["cold"].(bool)
+			if raceLog() == "" {
+				c.Note("the race oracle needs the -race build of the harness with GORACE=log_path=...; only the byte comparison is replayed")
+			}
+			runFresh(c, int(idx), cold)
 		}
 		return
 	}
